@@ -332,6 +332,10 @@ def replay(run, path):
         for i, a in enumerate(cmd):
             if a == "-out":
                 cmd[i + 1] = os.path.join(run.scratch, "rerun.ndjson")
+            if a == "-in" and rp.get("histories"):
+                hp = os.path.join(run.scratch, "rerun-histories.ndjson")
+                open(hp, "w").write("\n".join(rp["histories"]) + "\n")
+                cmd[i + 1] = hp
         p = subprocess.run(cmd, capture_output=True, text=True, env=dict(os.environ, GORACE="halt_on_error=0 exitcode=66", VERIF_SCHEMA=SCHEMA))
         if "DATA RACE" in p.stderr or p.returncode == 66:
             log(p.stderr[:1500])
